@@ -190,6 +190,13 @@ func c14case(out *rec.Out, kind string, par bool, n int, hist []int, stats map[s
 	}
 	// half of the cases hand in ONE event object per signal, again and again (a sender that keeps its event value): two
 	// occurrences are two occurrences, whether or not they are the same Go value
+	// a quarter of the plain cases run NEXT TO ANOTHER satisfier of the same kind that is alive in the same program and
+	// gets events of its own in between (two catch events of one process): what one has collected is its own
+	var shadow satisfier
+	if !msg && !mixed && n >= 2 && c14seq%4 == 3 {
+		shadow = c14new(kind, par, n, false)
+		stats["cases_next_to_another_live_satisfier"]++
+	}
 	c14seq++
 	reuse := c14seq%2 == 0
 	objs := map[string]*event.SignalEvent{}
@@ -219,6 +226,12 @@ func c14case(out *rec.Out, kind string, par bool, n int, hist []int, stats map[s
 		}
 		// (a Satisfy call that does not return — a loop over the chains that never ends — would hang the whole family: the
 		// call runs under a deadline; past it the case is closed with `hang` and the process ends)
+		if shadow != nil {
+			// the other satisfier gets the history backwards, one event before each of ours
+			if j := hist[len(hist)-1-pos]; j >= 0 {
+				shadow.Satisfy(event.NewSignalEvent(fmt.Sprintf("sig%d", j)))
+			}
+		}
 		type res struct {
 			m bool
 			c int
